@@ -3,7 +3,8 @@ import CsVerif.Gen.StrLit
 /-! C13 property theorems: a profile generated from a beacon configuration is valid and faithful.
 
 Model: `fromBeaconConfig` (Model/C13.lean) on the pretty values `settings_by_index` presents and `config.uris`;
-`WellFormedCfg` is the decidable domain of the property (any latin-1 text in text settings, any `config.uris`); `ValidTree` / `Derives` (Lemmas/C13.lean) say that a tree is the
+`WellFormedCfg` is the decidable domain of the property (any latin-1 text in text settings, any `config.uris`, any text in
+the quoted part of execute items: no character restriction anywhere); `ValidTree` / `Derives` (Lemmas/C13.lean) say that a tree is the
 tree of a derivation of the generated grammar (C10's model of Lark); `specDict` is the dictionary of a tree, `expectedDict`
 the dictionary the property promises. -/
 namespace C13
@@ -101,6 +102,11 @@ theorem str_values_encoded : Gen.ProfileGen.strValuesEncoded = true := by decide
 /-- the SETTING_DOMAINS branch is the modelled one: join of the URIs that are not `None`, option omitted when the joined
 text is empty, literal written from `uris.encode("latin-1")` (bytes path) -/
 theorem uris_branch_modelled : Gen.ProfileGen.urisBranch = true := by decide
+
+/-- the execute branch hands the quoted part of `CreateThread "…"` / `CreateRemoteThread "…"` to `value_to_string` as
+`val[1:-1].encode()`: bytes path (`execItem` writes `C12.valueToString val`).  As a `str` only `"` would be escaped and a
+backslash in a module name (`C:\win\a.dll!f`) would change or break the regenerated statement. -/
+theorem execute_val_encoded : Gen.ProfileGen.executeValEncoded = true := by decide
 
 /-- what the two facts above mean for the model: text and the joined URIs are written with the bytes escaping -/
 theorem text_takes_bytes_path (s : Bytes) (uris : List (Option Bytes)) (st : St) :
@@ -272,6 +278,17 @@ theorem scalar_literal_decodes (v : PVal) (hw : wfScalar v = true) :
   obtain ⟨s, hs⟩ := wfScalar_vts hw
   exact ⟨s, hs, vts_decodes hw hs, unquote_vts hw hs⟩
 
+/-- execute items state the configured names byte for byte, whatever their characters: the generated statement(s) for a
+well-formed item consist of well-formed tokens (the quoted part is one STRING literal) and their dictionary entries are the
+promised ones — for `CreateThread "<text>"` the tuple `(CreateThread, <bytes of text>)` decoded from the literal -/
+theorem execute_item_faithful (s : Bytes) (h : wfExecItem (some s) = true) :
+    ∃ f, execItem (some s) = .ok f ∧ tokensOK f = true ∧ specForest execN execPath f.reparsed = expExecItem s := by
+  obtain ⟨f, hf, hs⟩ := spec_execItem h
+  obtain ⟨f', hf', ht⟩ := tk_execItem s
+  rw [hf] at hf'
+  cases hf'
+  exact ⟨f, hf, ht, hs⟩
+
 /-- byte-valued options (frame headers, transform arguments, static headers) decode to the exact bytes -/
 theorem bytes_literal_decodes (v : Bytes) : C12.stringTokenToBytes (C12.valueToString v) = .ok v :=
   C12.roundtrip v
@@ -279,13 +296,15 @@ theorem bytes_literal_decodes (v : Bytes) : C12.stringTokenToBytes (C12.valueToS
 /-! ### non-vacuity -/
 
 /-- sleeptime, a user agent with a quote, a backslash, a line feed and `é`, an http-get client program with binary arguments,
-an execute list, a gate list, a DNS resolver with a line feed (written as the `# dns_resolver` comment) -/
+an execute list with a module name containing a backslash, a quote and `é` (UTF-8), a gate list, a DNS resolver with a line
+feed (written as the `# dns_resolver` comment) -/
 def exampleCfg : List (Nat × PVal) := [
   (3, .int 60000), (9, .str [65, 34, 92, 10, 233]), (8, .str []), (66, .str [56, 10, 56]),
   (12, .transform [.static .hdr [65, 58, 32, 66], .build (k "metadata"), .en .base64, .arg .prepend [0, 34, 92, 255],
     .arg .header [67]]),
   (11, .recover [.print, .prepend 3, .base64]),
-  (51, .execute [some (k "CreateThread"), some (k "NtQueueApcThread_s")]),
+  (51, .execute [some (k "CreateThread"), some (k "NtQueueApcThread_s"),
+    some (k "CreateRemoteThread \"C:\\a\"" ++ [195, 169] ++ k ".dll!f+0x10\"")]),
   (78, .gate [k "Core", k "ExitThread"])]
 
 example : WellFormedCfg exampleCfg = true := by decide +kernel
@@ -294,11 +313,15 @@ example : (fromBeaconConfig exampleCfg [some [47, 120]]).toOption.map (fun t => 
   decide +kernel
 example : (fromBeaconConfig (exampleCfg.filter (·.1 != 66)) [some [47, 120]]).toOption.map (fun t => noComment t.kids) = some true := by
   decide +kernel
-example : (fromBeaconConfig exampleCfg [some [47, 120]]).toOption.map (fun t => (specDict t.reparsed).length) = some 14 := by
+example : (fromBeaconConfig exampleCfg [some [47, 120]]).toOption.map (fun t => (specDict t.reparsed).length) = some 15 := by
   decide +kernel
 /-- URIs: a missing one (odd number of SETTING_DOMAINS fields) is skipped; with none left the `uri` option is absent -/
-example : (expectedDict exampleCfg [some [47, 120], none, some []]).length = 14 ∧ (expectedDict exampleCfg [none]).length = 13 ∧
-    (expectedDict exampleCfg [some []]).length = 13 := by decide +kernel
+example : (expectedDict exampleCfg [some [47, 120], none, some []]).length = 15 ∧ (expectedDict exampleCfg [none]).length = 14 ∧
+    (expectedDict exampleCfg [some []]).length = 14 := by decide +kernel
+/-- the execute item `CreateRemoteThread "C:\a"é.dll!f+0x10"` is promised with exactly the bytes between its quotes -/
+example : expExecItem (k "CreateRemoteThread \"C:\\a\"" ++ [195, 169] ++ k ".dll!f+0x10\"") =
+    [([k "process-inject", k "execute"], .tuple (k "CreateRemoteThread") [.ok (k "C:\\a\"" ++ [195, 169] ++ k ".dll!f+0x10")])] := by
+  decide +kernel
 /-- the user agent `A"\<LF>é` is promised as the text `A\"\\\n\xe9` between the quotes -/
 example : lit (.str [65, 34, 92, 10, 233]) = b "A\\\"\\\\\\n\\xe9" := by decide +kernel
 
